@@ -399,6 +399,68 @@ func doIssue(out string) {
 			}
 		}
 	}
+	// Names: whatever identity the issuing functions accept, the certificate a peer RECEIVES (serialised, parsed
+	// again) verifies for exactly the names the issuer was asked to certify - labels at and beyond the size a
+	// block can carry, several names, labels whose content looks like further blocks.
+	fill := func(n int, c byte) []byte { return bytes.Repeat([]byte{c}, n) }
+	blocks := func(k int) []byte { // k bytes, then 256 bytes laid out as two well-formed blocks
+		b := fill(k, 'A')
+		b = append(b, 17, byte(certs.TypeDNSName), 14)
+		b = append(b, "victim.example"...)
+		b = append(b, 239, byte(certs.TypeRaw), 236)
+		return append(b, fill(236, 'z')...)
+	}
+	var sets [][]certs.Name
+	for _, n := range []int{0, 1, 100, 251, 252, 253, 254, 255, 256, 257, 300, 509, 510, 600} {
+		sets = append(sets, []certs.Name{{Type: certs.TypeDNSName, Label: fill(n, 'h')}}, []certs.Name{{Type: certs.TypeRaw, Label: fill(n, 'r')}},
+			[]certs.Name{certs.DNSName("first.example"), {Type: certs.TypeRaw, Label: fill(n, 'q')}})
+	}
+	for _, k := range []int{0, 1, 5, 40} {
+		sets = append(sets, []certs.Name{{Type: certs.TypeRaw, Label: blocks(k)}}, []certs.Name{certs.DNSName("first.example"), {Type: certs.TypeRaw, Label: blocks(k)}})
+	}
+	sets = append(sets, []certs.Name{certs.DNSName("a.example"), certs.DNSName("b.example"), certs.RawStringName("c")},
+		[]certs.Name{{Type: certs.TypeRaw, Label: fill(252, 'x')}, {Type: certs.TypeDNSName, Label: fill(251, 'y')}},
+		[]certs.Name{{Type: certs.TypeRaw, Label: fill(252, 'x')}, {Type: certs.TypeDNSName, Label: fill(252, 'y')}})
+	probes := []certs.Name{certs.DNSName("victim.example"), certs.RawStringName("victim.example"), certs.DNSName("first.example"), certs.DNSName("a.example"),
+		certs.RawStringName("c"), {Type: certs.TypeRaw, Label: fill(236, 'z')}, {Type: certs.TypeRaw, Label: fill(5, 'A')}, certs.DNSName("")}
+	for si, names := range sets {
+		lens := []int{}
+		for _, n := range names {
+			lens = append(lens, len(n.Label))
+		}
+		id := certs.LeafIdentity(leafKey, names...)
+		leaf, err := certs.IssueLeaf(inter, id)
+		if err != nil {
+			w.Ev("vname", "set", si, "lens", lens, "issued", "no", "reparse", "na", "certified", "na", "ok", "na", "probe", "")
+			continue
+		}
+		parsed := new(certs.Certificate)
+		b, merr := leaf.Marshal()
+		if merr == nil {
+			_, merr = parsed.ReadFrom(bytes.NewReader(b))
+		}
+		if merr != nil {
+			w.Ev("vname", "set", si, "lens", lens, "issued", "yes", "reparse", "error", "certified", "na", "ok", "na", "probe", merr.Error())
+			continue
+		}
+		for _, pn := range append(append([]certs.Name{}, names...), probes...) {
+			certified := "no"
+			for _, n := range names {
+				if n.Type == pn.Type && bytes.Equal(n.Label, pn.Label) {
+					certified = "yes"
+				}
+			}
+			ok := "yes"
+			if err := st.VerifyLeaf(parsed, certs.VerifyOptions{Name: pn, CurrentTime: leaf.IssuedAt.Add(time.Minute)}); err != nil {
+				ok = "no"
+			}
+			show := string(pn.Label)
+			if len(show) > 24 {
+				show = fmt.Sprintf("%q... (%d bytes)", show[:24], len(show))
+			}
+			w.Ev("vname", "set", si, "lens", lens, "issued", "yes", "reparse", "ok", "certified", certified, "ok", ok, "probe", fmt.Sprintf("%d:%s", pn.Type, show))
+		}
+	}
 }
 
 func main() {
